@@ -31,7 +31,8 @@ class Outcome:
         self.bounds = {}
         self.outside = []
         self.stats = dict(paths=0, pruned=0, branch_queries=0, verdict_queries=0, solver_s=0.0, forks=0,
-                          verdict_unsat=0, verdict_sat=0, verdict_trivial=0)
+                          verdict_unsat=0, verdict_sat=0, verdict_trivial=0, cvc5_rechecked=0, cvc5_agree=0,
+                          cvc5_unknown=0)
         self.notes = []
         self.parts = {}  # sub-claim -> dict(paths=, queries=, ...)
 
@@ -103,6 +104,9 @@ def finish(out):
     cov['verdict_unsat'] = st['verdict_unsat']
     cov['verdict_sat'] = st['verdict_sat']
     cov['verdicts_closed_by_normal_form'] = st.get('verdict_trivial', 0)
+    cov['second_solver'] = dict(cvc5_rechecked=st.get('cvc5_rechecked', 0), agree=st.get('cvc5_agree', 0),
+                                no_answer_within_20s=st.get('cvc5_unknown', 0),
+                                note='thorough tier only: up to 12 verdict queries per engine re-discharged with the cvc5 binary')
     cov['solver_seconds'] = round(st['solver_s'], 3)
     cov['functions_encoded'] = sorted(out.functions)
     cov['bounds'] = out.bounds
